@@ -15,10 +15,15 @@
 (* NthOrder selects the order of the two statements of nth/nth_back:       *)
 (*   "drop_then_advance"  the code as found in the pinned tree (D1)        *)
 (*   "advance_then_drop"  the repaired code                                *)
+(* CloneOwner selects who owns the clones while Clone::clone runs:         *)
+(*   "array_then_wrap"  as found: written into a ManuallyDrop array that   *)
+(*                      becomes an iterator only after the loop (D2)       *)
+(*   "iterator_first"   the repaired code: the new iterator exists first   *)
+(*                      and its index_back grows with every clone          *)
 (***************************************************************************)
 EXTENDS Ops, TLC, Json
 
-CONSTANTS MaxN, Faults, NthOrder
+CONSTANTS MaxN, Faults, NthOrder, CloneOwner
 
 VARIABLES
     n,           \* array length
@@ -29,9 +34,10 @@ VARIABLES
     fired,       \* the fault has happened
     bad,         \* a slot was read / moved out while not live, or an index left its range
     alive,       \* the iterator object still exists
-    last         \* what the last step did, for refinement and scenario emission
+    last,        \* what the last step did, for refinement and scenario emission
+    cleak        \* clones made by a clone() call that unwound and were never dropped
 
-vars == <<n, index, index_back, slot, drops, pan, fired, bad, alive, last>>
+vars == <<n, index, index_back, slot, drops, pan, fired, bad, alive, last, cleak>>
 
 Len0 == index_back - index
 Dq == [i \in 1..Len0 |-> index + i]
@@ -44,6 +50,7 @@ Init ==
     /\ pan \in (IF Faults THEN 0..n ELSE {0})
     /\ fired = FALSE /\ bad = FALSE /\ alive = TRUE
     /\ last = [op |-> "init", arg |-> 0, f |-> 0, b |-> n, res |-> <<>>, exp |-> <<>>, unwound |-> FALSE]
+    /\ cleak = 0
 
 (* drop_in_place(array[a..b]) on slots a+1..b: every slot's destructor runs
    (also after one of them panicked); returns the new slot/drops functions
@@ -71,7 +78,7 @@ Next_ ==            \* fn next(&mut self)
             /\ last' = Rec("next", 0, <<index + 1>>, FALSE)
        ELSE /\ last' = Rec("next", 0, <<>>, FALSE)
             /\ UNCHANGED <<slot, bad, index>>
-    /\ UNCHANGED <<n, index_back, drops, pan, fired, alive>>
+    /\ UNCHANGED <<n, index_back, drops, pan, fired, alive, cleak>>
 
 NextBack ==         \* fn next_back(&mut self)
     /\ alive
@@ -82,7 +89,7 @@ NextBack ==         \* fn next_back(&mut self)
             /\ last' = Rec("next_back", 0, <<index_back>>, FALSE)
        ELSE /\ last' = Rec("next_back", 0, <<>>, FALSE)
             /\ UNCHANGED <<slot, bad, index_back>>
-    /\ UNCHANGED <<n, index, drops, pan, fired, alive>>
+    /\ UNCHANGED <<n, index, drops, pan, fired, alive, cleak>>
 
 Nth(k) ==           \* fn nth(&mut self, n)
     /\ alive
@@ -105,7 +112,7 @@ Nth(k) ==           \* fn nth(&mut self, n)
                ELSE /\ slot' = d.slot /\ bad' = (bad \/ d.stale)
                     /\ index' = next_index
                     /\ last' = Rec("nth", k, <<>>, FALSE)
-    /\ UNCHANGED <<n, index_back, pan, alive>>
+    /\ UNCHANGED <<n, index_back, pan, alive, cleak>>
 
 NthBack(k) ==       \* fn nth_back(&mut self, n)
     /\ alive
@@ -126,7 +133,7 @@ NthBack(k) ==       \* fn nth_back(&mut self, n)
                ELSE /\ slot' = d.slot /\ bad' = (bad \/ d.stale)
                     /\ index_back' = next_back
                     /\ last' = Rec("nth_back", k, <<>>, FALSE)
-    /\ UNCHANGED <<n, index, pan, alive>>
+    /\ UNCHANGED <<n, index, pan, alive, cleak>>
 
 \* impl Drop: drop_in_place(self.as_mut_slice())
 DropIter(opname) ==
@@ -137,7 +144,7 @@ DropIter(opname) ==
        /\ bad' = (bad \/ d.stale)
        /\ last' = RecE(opname, 0, <<>>, <<>>, d.unwinds)
     /\ alive' = FALSE
-    /\ UNCHANGED <<n, index, index_back, pan>>
+    /\ UNCHANGED <<n, index, index_back, pan, cleak>>
 
 \* fn count(self) = self.len(), then self is dropped
 Count == DropIter("count")
@@ -157,14 +164,14 @@ LastOp ==
        ELSE /\ last' = Rec("last", 0, <<>>, FALSE)
             /\ UNCHANGED <<slot, drops, fired, bad>>
     /\ alive' = FALSE
-    /\ UNCHANGED <<n, index, index_back, pan>>
+    /\ UNCHANGED <<n, index, index_back, pan, cleak>>
 
 \* observers: len / size_hint / as_slice / Debug / clone read only index..index_back
 Observe(opname) ==
     /\ alive
     /\ bad' = (bad \/ \E i \in (index + 1)..index_back : slot[i] # "live")
     /\ last' = RecE(opname, 0, Dq, Sem("as_slice", <<Dq>>, 0, <<>>).recv, FALSE)
-    /\ UNCHANGED <<n, index, index_back, slot, drops, pan, fired, alive>>
+    /\ UNCHANGED <<n, index, index_back, slot, drops, pan, fired, alive, cleak>>
 
 \* fold / rfold consume everything through ptr::read + index bump, then forget(self)
 FoldAll(opname) ==
@@ -173,13 +180,23 @@ FoldAll(opname) ==
     /\ bad' = (bad \/ \E i \in (index + 1)..index_back : slot[i] # "live")
     /\ alive' = FALSE
     /\ last' = RecE(opname, 0, Dq, Dq, FALSE)
-    /\ UNCHANGED <<n, index, index_back, drops, pan, fired>>
+    /\ UNCHANGED <<n, index, index_back, drops, pan, fired, cleak>>
+
+\* impl Clone: for (dst, src) in new.zip(remaining) { write(dst, src.clone()); count += 1 }
+\* cp = 0: no fault; cp = j: Clone::clone of the j-th remaining element panics (j-1 clones exist then)
+CloneIter(cp) ==
+    /\ alive /\ cp \in 0..Len0
+    /\ bad' = (bad \/ \E i \in (index + 1)..index_back : slot[i] # "live")
+    /\ cleak' = IF cp > 0 /\ CloneOwner = "array_then_wrap" THEN cleak + (cp - 1) ELSE cleak
+    /\ last' = RecE("iter_clone", cp, Dq, Dq, cp > 0)
+    /\ UNCHANGED <<n, index, index_back, slot, drops, pan, fired, alive>>
 
 Step ==
     \/ Next_ \/ NextBack
     \/ \E k \in 0..(Len0 + 2) : Nth(k) \/ NthBack(k)
     \/ Count \/ LastOp \/ DropIter("drop")
-    \/ \E o \in {"len", "size_hint", "as_slice", "debug", "iter_clone"} : Observe(o)
+    \/ \E o \in {"len", "size_hint", "as_slice", "debug"} : Observe(o)
+    \/ \E cp \in 0..Len0 : (cp = 0 \/ Faults) /\ CloneIter(cp)
     \/ \E o \in {"iter_fold", "iter_rfold"} : FoldAll(o)
 
 Spec == Init /\ [][Step]_vars
@@ -195,12 +212,15 @@ WindowLive == alive /\ ~fired => \A i \in 1..n : (slot[i] = "live") <=> (index <
 \* without faults nothing leaks once the iterator is gone
 NoLeak == (~alive /\ ~fired) => \A i \in 1..n : slot[i] # "live"
 
+\* a panicking Clone::clone leaves no clone behind (C04 for the iterator)
+NoCloneLeak == cleak = 0
+
 (* ---- scenario emission: one line per explored transition ---------------- *)
 Emit ==
     /\ Assert(last'.unwound \/ last'.res = last'.exp, <<"refinement violated", last'>>)
     /\ (last.unwound \/ fired) \/ PrintT(<<"SCN", ToJson([n |-> n, f |-> last'.f, b |-> last'.b, op |-> last'.op, arg |-> last'.arg,
-                            pan |-> pan])>>)
+                            pan |-> pan, cpan |-> IF last'.op = "iter_clone" /\ last'.arg > 0 THEN last'.f + last'.arg ELSE 0])>>)
 \* moved-out and dropped slots are both "gone": any later access to either sets `bad'
 View == <<n, index, index_back, [i \in 1..n |-> slot[i] = "live"], [i \in 1..n |-> drops[i] > 1],
-          pan, fired, bad, alive>>
+          pan, fired, bad, alive, cleak > 0>>
 =============================================================================
